@@ -297,7 +297,10 @@ def run(tier):
         # it was then written out as a chain of >= 100 objects: what such a file costs is the chain's doing (seed 3 drew
         # MakeChain(nested, 15058) on the seed file-xref-shared-offset and reported the open finding chain.nested under
         # the name of a repaired shape)
-        if ":amp:" in m["src"] and not str(m.get("rep") or "").startswith("chain."):
+        # (only the NESTED chain, whose cost is its own - chain.nested is listed by that trigger; any other chain kind
+        # on an amplification seed stays with the seed: `MakeChain(prev, 575)` on file-objstm-flate2 still dies of the two
+        # FlateDecode stages of its object stream)
+        if ":amp:" in m["src"] and str(m.get("rep") or "") != "chain.nested":
             m["rep"] = "shape." + m["src"].split(":amp:", 1)[1].split("+")[0]
         meta.append(m)
 
